@@ -18,10 +18,15 @@ class ClientRig:
         self.tamper = None       # callable(step, request, responses) -> responses (fault injection)
         self.step = 0
         self.deferred = None     # None: inline; list: responses parked until the client waits
+        self.lose_requests = set()   # ordinal numbers of request frames that never reach the server (lossy bus)
+        self.nreq = 0
 
     def send_message(self, can_id, data, remote=False):
         self.sent.append((can_id, data))
         sx.prove(can_id == self.client.rx_cobid, "request on the server's COB-ID", "C01/frame/cob-id")
+        self.nreq += 1
+        if self.nreq - 1 in self.lose_requests:
+            return
         resps = self.server.on_request(data)
         if self.tamper is not None:
             resps = self.tamper(self.step, data, resps)
